@@ -611,13 +611,17 @@ MANIFEST = {
              'the root); direction_swap + directAll_swap (component_1/2 order irrelevant for every connection between declared '
              'variables, accepted or refused, after the two C17 repairs of _determine_connection_direction; '
              'direction_nonadjacent_refused), connect_perm / conns_order_irrelevant '
-             '(roots independent of connection order when both orders resolve); eval_rename (substitution lemma); '
+             '(roots independent of connection order); connect_ok_iff_resolvable (the work list succeeds exactly on the '
+             'connection sets described by the order-free predicate Resolvable: unique targets that are not sources, '
+             'every source fed from a variable without `in` interface, convertible units, at most one cmeta id per '
+             'assigned_to group) with corollaries connect_perm_outcome (success/failure is the same for every '
+             'permutation of the connections; the exception class may differ) and connect_perm_total (one order '
+             'resolves => every order resolves, same roots); eval_rename (substitution lemma); '
              'load_sound / load_sound_numeric / load_complete: with physical (SI) valuations, every solution of the flat '
              'model read through root solves the document (all component equations, all connection equalities, constants) '
              'and every solution of the document solves the flat model, conversion equations included (their factor with '
              'unit target/source is physically 1). Non-vacuity: a 3-component relay mV -> volt -> mV loaded and solved '
-             'inside Lean. Not proved: that success/failure of the work list is the same for every order of the '
-             'connections (only the roots are shown order-independent). Tie: generated documents are written to disk, '
+             'inside Lean; refused sets (two sources, unfed relay) as witnesses of the other side. Tie: generated documents are written to disk, '
              'loaded with cellmlmanip.load_model and compared with the compiled model: outcome class, equations '
              '(left-hand side and leaf names), variables (initial value, cmeta id after the moves), physical value of every '
              'defined variable and derivative after the unit-fix pass. Search oracle: a reference evaluator of the '
